@@ -13,11 +13,13 @@ pub const FML_ROOT: &str = env!("FMLV_FML_ROOT");
 pub mod bc;
 pub mod cli;
 pub mod fmlrun;
+pub mod fragment;
 pub mod gen;
 pub mod harness;
 pub mod ir;
 pub mod props;
 pub mod refsem;
 pub mod render;
+pub mod shrink;
 pub mod tape;
 pub mod tools;
